@@ -17,6 +17,7 @@ pub fn dispatch(op: &str, case: &Value) -> Value {
         "results_page" => op_results_page(case),
         "page_limit" => op_page_limit(case),
         "page_limit_bad" => op_page_limit_bad(case),
+        "scan" => op_scan(case),
         _ => json!({"error": format!("unknown op {}", op)}),
     }
 }
@@ -511,4 +512,91 @@ fn op_page_limit_bad(case: &Value) -> Value {
     let q = format!("?limit={}", case["text"].as_str().unwrap());
     let Some(r) = get_items(&q) else { return json!({"status": 0}) };
     json!({"status": r.status})
+}
+
+// ---------------------------------------------------------------------------------- C15
+#[derive(Debug, Clone, PartialEq, Deserialize, Serialize, JsonSchema)]
+struct NumSel {
+    last: u64,
+    desc: bool,
+}
+#[derive(Debug, Clone, PartialEq, Deserialize, Serialize, JsonSchema)]
+struct NumScan {
+    #[serde(default)]
+    desc: bool,
+}
+
+#[endpoint { method = GET, path = "/nums" }]
+async fn paged_nums(
+    rqctx: RequestContext<u64>,
+    query: Query<PaginationParams<NumScan, NumSel>>,
+) -> Result<HttpResponseOk<ResultsPage<u64>>, HttpError> {
+    let n = *rqctx.context();
+    let p = query.into_inner();
+    let limit = rqctx.page_limit(&p)?.get() as usize;
+    let (desc, after): (bool, Option<u64>) = match &p.page {
+        WhichPage::First(s) => (s.desc, None),
+        WhichPage::Next(sel) => (sel.desc, Some(sel.last)),
+    };
+    // the collection is 1..=n
+    let items: Vec<u64> = if desc {
+        let start = after.map(|a| a.saturating_sub(1)).unwrap_or(n);
+        (1..=start).rev().take(limit).collect()
+    } else {
+        let start = after.map(|a| a + 1).unwrap_or(1);
+        (start..=n).take(limit).collect()
+    };
+    Ok(HttpResponseOk(ResultsPage::new(items, &NumScan { desc }, |i: &u64, s: &NumScan| NumSel { last: *i, desc: s.desc })?))
+}
+
+/// {"op":"scan","n":n,"limit":l|null,"desc":b}: follow next-page tokens on a live server until none is returned
+fn op_scan(case: &Value) -> Value {
+    use std::io::{Read, Write};
+    let n = case["n"].as_u64().unwrap();
+    let limit = case["limit"].as_u64();
+    let desc = case["desc"].as_bool().unwrap_or(false);
+    let eff = limit.map(|l| l.min(10000)).unwrap_or(100) as usize;
+    let rt = tokio::runtime::Builder::new_multi_thread().worker_threads(2).enable_all().build().unwrap();
+    rt.block_on(async move {
+        let mut api = ApiDescription::new();
+        api.register(paged_nums).unwrap();
+        let log = slog::Logger::root(slog::Discard, slog::o!());
+        let server = dropshot::ServerBuilder::new(api, n, log).start().expect("server");
+        let addr = server.local_addr();
+        let out = tokio::task::spawn_blocking(move || {
+            let mut seen: Vec<u64> = vec![];
+            let mut token: Option<String> = None;
+            let (mut pages, mut max_page, mut token_on_empty, mut missing_token) = (0usize, 0usize, false, false);
+            loop {
+                let mut parts: Vec<(String, String)> = vec![];
+                match &token {
+                    Some(t) => parts.push(("page_token".into(), t.clone())),
+                    None => { if desc { parts.push(("desc".into(), "true".into())); } }
+                }
+                if let Some(l) = limit { parts.push(("limit".into(), l.to_string())); }
+                let q = if parts.is_empty() { String::new() } else { format!("?{}", serde_urlencoded::to_string(&parts).unwrap()) };
+                let mut s = std::net::TcpStream::connect(addr).unwrap();
+                s.write_all(format!("GET /nums{} HTTP/1.1\r\nHost: r\r\nConnection: close\r\n\r\n", q).as_bytes()).unwrap();
+                let mut buf = vec![];
+                s.read_to_end(&mut buf).unwrap();
+                let Some(resp) = crate::live::parse_response(&buf) else { return json!({"as_specified": false, "why": "no response"}) };
+                if resp.status != 200 { return json!({"as_specified": false, "why": format!("status {}", resp.status)}); }
+                let body: Value = serde_json::from_slice(&resp.body).unwrap_or(Value::Null);
+                let items: Vec<u64> = body["items"].as_array().unwrap().iter().map(|x| x.as_u64().unwrap()).collect();
+                pages += 1;
+                max_page = max_page.max(items.len());
+                let next = body["next_page"].as_str().map(|s| s.to_string());
+                if items.is_empty() && next.is_some() { token_on_empty = true; }
+                if !items.is_empty() && next.is_none() { missing_token = true; }
+                seen.extend(items);
+                match next { Some(t) if pages < 100000 => token = Some(t), _ => break }
+            }
+            let want: Vec<u64> = if desc { (1..=n).rev().collect() } else { (1..=n).collect() };
+            let ok = seen == want && max_page <= eff && !token_on_empty && !missing_token;
+            json!({"as_specified": ok, "pages": pages, "items_seen": seen.len(), "max_page": max_page, "effective_limit": eff,
+                   "token_on_empty_page": token_on_empty, "non_empty_page_without_token": missing_token})
+        }).await.unwrap();
+        let _ = server.close().await;
+        out
+    })
 }
